@@ -227,16 +227,24 @@ Section NoClobber.
     - auto.
   Qed.
 
+  Lemma nc_write_failed {T} inhalt e (Q : T -> assn) : hc NC (write_failed pl inhalt e) Q ENC.
+  Proof.
+    assert (D : forall sg, hc NC (die_by pl (A:=T) inhalt sg) Q ENC).
+    { intro sg. unfold die_by. destruct (_ && _); [apply hc_stop; auto|].
+      hnc; [apply nc_cleanup|]. apply hc_stop. auto. }
+    unfold write_failed. destruct (N.eqb e EFBIG); [apply D|]. destruct (N.eqb e EPIPE); [apply D | apply nc_fatal].
+  Qed.
+
   Lemma nc_do_write inhalt o c : odst_ok o -> hc NC (do_write cf pl inhalt o c) (fun _ => NC) ENC.
   Proof.
     intro Ho. unfold do_write. destruct c as [|b c]; [apply hc_ret; auto|].
     destruct o as [| |i]; [| apply hc_ret; auto |].
     - hnc as r.
       + apply nc_sys_simple. intros k0 H. apply nc_stdout. exact H.
-      + destruct r; [apply hc_ret; auto | apply nc_fatal | apply hc_ret; auto].
+      + destruct r; [apply hc_ret; auto | apply nc_write_failed | apply hc_ret; auto].
     - hnc as r.
       + apply nc_sys_simple. intros k0 H. apply nc_upd; auto.
-      + destruct r; [apply hc_ret; auto | apply nc_fatal | apply hc_ret; auto].
+      + destruct r; [apply hc_ret; auto | apply nc_write_failed | apply hc_ret; auto].
   Qed.
 
   Lemma nc_do_io iin o evs : odst_ok o -> hc NC (do_io cf pl iin o evs) (fun _ => NC) ENC.
